@@ -15,6 +15,10 @@ pub struct Case {
     pub sigma_mul: f64,
     /// execute the README recipe (loop, partial, flush with None, skip delay, keep len*ratio)
     pub recipe: bool,
+    /// asynchronous types: change the ratio (not ramped) to original * max_rel^pos before the stream
+    /// starts; output_delay() is then read at, and must be right for, the new ratio
+    #[serde(default)]
+    pub set_pos: Option<f64>,
 }
 
 pub struct C14;
@@ -53,11 +57,20 @@ fn run_t<T: SampleX>(c0: &Case) -> Outcome {
         o.class(l);
     }
     cfg.channels = 1;
-    cfg.max_rel = 1.0;
     let kind = cfg.kind;
+    let set_ratio = match c0.set_pos {
+        Some(pos) if kind.is_async() && cfg.max_rel > 1.0 => Some(crate::hist::proposal_ratio(&cfg, pos)),
+        _ => None,
+    };
+    if set_ratio.is_none() {
+        cfg.max_rel = 1.0;
+    }
     o.class(format!("kind:{}", kind.name()));
-    let ratio = cfg.nominal_ratio();
-    let pe = match passband_edge(&cfg) {
+    let ratio = set_ratio.unwrap_or(cfg.nominal_ratio());
+    // the event must pass the filter designed for the original ratio and be resolvable at the ratio in use
+    let mut pcfg = cfg.clone();
+    pcfg.ratio = cfg.ratio.min(ratio);
+    let pe = match passband_edge(&pcfg) {
         Some(p) => p,
         None => {
             o.class("passband-empty(constructed away)");
@@ -81,6 +94,13 @@ fn run_t<T: SampleX>(c0: &Case) -> Outcome {
         }
     };
     let res = &mut b.res;
+    if let Some(r) = set_ratio {
+        if let Err(e) = res.set_ratio(r, false) {
+            o.fail(format!("set-ratio-rejected:{}", kind.name()), format!("in-range ratio {} rejected: {}", r, e));
+            return o;
+        }
+        o.class("ratio-set-before-stream");
+    }
     let delay = res.delay();
     let new_len = (clip_len as f64 * ratio) as usize;
     let mut out: Vec<f64> = Vec::with_capacity(new_len + delay + 4096);
@@ -177,12 +197,16 @@ impl Property for C14 {
     }
     fn strategy(&self, tier: Tier) -> BoxedStrategy<Case> {
         let th = tier.thorough();
-        (((0usize..7).prop_map(|i| ALL_KINDS[i]), any::<bool>(), ratio_strategy(), rate_pair_strategy(if th { 640 } else { 320 }), chunk_strategy(if th { 4096 } else { 1024 }), 1usize..=4, 0u8..5), ((2usize..=32).prop_map(|k| 8 * k), 0.7f32..0.99, 16usize..=128, 0u8..4, 0u8..6, 0usize..400, 1.0f64..3.0, any::<bool>()))
-            .prop_map(move |((kind, f32, ratio, rates, chunk, sub, degree), (sinc_len, f_cutoff, os, interp, window, n_off, sigma_mul, recipe))| {
+        (((0usize..7).prop_map(|i| ALL_KINDS[i]), any::<bool>(), ratio_strategy(), rate_pair_strategy(if th { 640 } else { 320 }), chunk_strategy(if th { 4096 } else { 1024 }), 1usize..=4, 0u8..5), ((2usize..=32).prop_map(|k| 8 * k), 0.7f32..0.99, 16usize..=128, 0u8..4, 0u8..6, 0usize..400, 1.0f64..3.0, any::<bool>(), prop_oneof![2 => Just(None), 1 => (-1.0f64..=1.0).prop_map(Some)], 1.5f64..4.0))
+            .prop_map(move |((kind, f32, ratio, rates, chunk, sub, degree), (sinc_len, f_cutoff, os, interp, window, n_off, sigma_mul, recipe, set_pos, max_rel))| {
                 let mut cfg = Config { kind, f32, ratio, rate_in: rates.0, rate_out: rates.1, chunk, sub_chunks: sub, degree, sinc_len, f_cutoff, os, interp, window, ..Config::default() };
                 if kind.is_async() {
                     // keep the stream affordable: sigma ~ 4/ratio input frames, L x points x frames
                     cfg.ratio = ratio.clamp(1.0 / 8.0, 8.0);
+                    if set_pos.is_some() {
+                        cfg.max_rel = max_rel;
+                        cfg.ratio = ratio.clamp(1.0 / 4.0, 4.0);
+                    }
                 } else {
                     // FFT blocks of at least 64 points so that the built-in low-pass has a passband
                     let g = crate::cfg::gcd(rates.0, rates.1);
@@ -191,7 +215,7 @@ impl Property for C14 {
                     let k = (64 + m - 1) / m;
                     cfg.chunk = cfg.chunk.max(k * per * if kind == Kind::FftInOut { 1 } else { sub });
                 }
-                Case { cfg, n_off, sigma_mul, recipe }
+                Case { cfg, n_off, sigma_mul, recipe, set_pos }
             })
             .boxed()
     }
